@@ -161,6 +161,7 @@ struct FnStats {
     liq_prog_overflow: AtomicU64,
     liq_shifted: AtomicU64,
     liq_slippage: AtomicU64,
+    liq_fee_ok: AtomicU64,
     est_both_ok: AtomicU64,
     est_sdk_stricter: AtomicU64,
 }
@@ -694,6 +695,29 @@ fn t22_mint_image(bps: u16, max: u64) -> Vec<u8> {
     world::create_t22_mint(&mut l, k, 6, None, &[T22Ext::TransferFee { bps, max }]);
     l.data(&k).to_vec()
 }
+/// two fee configurations used by the liquidity-quote comparison: (bps, max, mint image)
+fn fee_images() -> &'static [(u16, u64, Vec<u8>); 2] {
+    static IMG: std::sync::OnceLock<[(u16, u64, Vec<u8>); 2]> = std::sync::OnceLock::new();
+    IMG.get_or_init(|| [(300, 5_000, t22_mint_image(300, 5_000)), (1000, u64::MAX, t22_mint_image(1000, u64::MAX))])
+}
+/// the program's transfer-fee-included (what must be sent so that `amount` arrives) / -excluded (what arrives of `amount`) amount
+fn prog_fee_amount(image: &[u8], amount: u64, included: bool) -> R<u64> {
+    svm::set_clock(1_700_000_000, 0);
+    let k = key("c20/tfmint");
+    let mut lamports = 1u64;
+    let mut d = image.to_vec();
+    let owner = world::T22;
+    let info = AccountInfo::new(&k, false, false, &mut lamports, &mut d, &owner, false, 0);
+    let mint = match InterfaceAccount::<Mint>::try_from(&info) {
+        Ok(m) => m,
+        Err(e) => return R::Err(format!("machinery: {e:?}")),
+    };
+    if included {
+        prog_anchor(|| calculate_transfer_fee_included_amount(&mint, amount).map(|x| x.amount))
+    } else {
+        prog_anchor(|| calculate_transfer_fee_excluded_amount(&mint, amount).map(|x| x.amount))
+    }
+}
 fn chk_transfer_fee(image: &[u8], bps: u16, max: u64, amount: u64, st: &FnStats) -> Result<(), String> {
     svm::set_clock(1_700_000_000, 0);
     let k = key("c20/tfmint");
@@ -906,6 +930,36 @@ fn chk_liq(lower: i32, upper: i32, price: u128, tick: i32, liq: u128, increase: 
                 return Err(cls(&format!("liq/program-rejects-{}-sdk-ok{rc}", a.kind()), format!("{args}: the program rejects this input as overflowing ({}) but the SDK returns estimates ({ea}, {eb})", a.show())));
             }
             _ => {}
+        }
+    }
+    // the same quote over mints with a transfer fee on A only, on B only, on both: what the user is debited (increase: the smallest
+    // amount whose fee-reduced value is the delta) / credited (decrease: the delta less the fee), by the program's own functions
+    if let R::Ok((pa, pb)) = &a {
+        let imgs = fee_images();
+        for (fa, fb) in [(Some(0usize), None), (None, Some(1usize)), (Some(0), Some(1))] {
+            let exp = |x: u64, f: Option<usize>| -> R<u64> {
+                match f {
+                    None => R::Ok(x),
+                    Some(i) => prog_fee_amount(&imgs[i].2, x, increase),
+                }
+            };
+            let tf = |f: Option<usize>| f.map(|i| sdk::TransferFee::new_with_max(imgs[i].0, imgs[i].1));
+            let q: R<(u64, u64)> = if increase {
+                sdkr(|| sdk::increase_liquidity_quote(liq, 0, price, lower, upper, tf(fa), tf(fb)).map(|q| (q.token_est_a, q.token_est_b)))
+            } else {
+                sdkr(|| sdk::decrease_liquidity_quote(liq, 0, price, lower, upper, tf(fa), tf(fb)).map(|q| (q.token_est_a, q.token_est_b)))
+            };
+            let fees = format!("transfer fee A {:?} / B {:?} (bps, max)", fa.map(|i| (imgs[i].0, imgs[i].1)), fb.map(|i| (imgs[i].0, imgs[i].1)));
+            match (exp(*pa, fa), exp(*pb, fb), &q) {
+                (R::Ok(x), R::Ok(y), R::Ok((sa, sb))) => {
+                    if (x, y) != (*sa, *sb) {
+                        return Err(cls("liq/transfer-fee-mismatch", format!("{args} with {fees}: the program moves ({x}, {y}) on the user's accounts but the SDK estimates ({sa}, {sb})")));
+                    }
+                    inc(&st.liq_fee_ok);
+                }
+                (R::Ok(x), R::Ok(y), _) => return Err(cls("liq/transfer-fee-program-ok-sdk-fails", format!("{args} with {fees}: the program moves ({x}, {y}) but the SDK = {}", q.show()))),
+                _ => {}
+            }
         }
     }
     if a.is_ok() {
@@ -1685,6 +1739,7 @@ pub fn run(ctx: &Ctx) -> Report {
         r.guard("liquidity_quote_program_overflow_sdk_error", get(&fst.liq_prog_overflow));
         r.guard("liquidity_quote_shifted_tick_states", get(&fst.liq_shifted));
         r.guard("liquidity_quote_slippage_side", get(&fst.liq_slippage));
+        r.guard("liquidity_quote_with_transfer_fee_equal", get(&fst.liq_fee_ok));
         r.guard("liquidity_from_token_maxima_equal", get(&fst.est_both_ok));
     }
     r.sample(json!({"state_level":"every distinct state x swap alphabet","swap_alphabet":serde_json::to_value(&specs[..6]).unwrap()}));
